@@ -60,6 +60,8 @@ Reasons(r) ==
             \* real verdict is the one of the matcher that keeps such bindings and not the one of the matcher that drops them
             \cup (IF ~o.panic /\ ~r.nopat /\ ~o.ok /\ Match(PT, T, s, 1).ok /\ ~MatchKeeping(PT, T, s, 1).ok
                   THEN {<<"rejected-candidate-left-bindings", s>>} ELSE {})
+            \* the pattern written as a rule's pattern object {context, selector, strictness} is the same pattern
+            \cup (IF ~o.panic /\ o.yaml # -1 /\ (o.yaml = 1) # o.ok THEN {<<"rule-pattern-object-differs-from-the-pattern", s>>} ELSE {})
           : i \in 1..5 }
     \* the kept text of a cut pattern is copied from the code: when the parsed pattern has the structure of the code but
     \* a kept leaf reads differently, the pattern text was altered on its way to the matcher
